@@ -9,7 +9,9 @@ PID = 'C03'
 RULE = ('Model-based stateful testing: Hypothesis-generated histories over '
         '{connect, enter_room, leave_room, close_room, client DISCONNECT, '
         'server.disconnect, transport loss, emit(to=None|room|list|sid, '
-        'skip_sid=None|sid|list, namespace), ops on unknown namespaces} run '
+        'skip_sid=None|sid|list, namespace), ops on unknown namespaces, '
+        'late enter_room / leave_room for clients that have gone, a '
+        'recipient whose transport dies during an emit} run '
         'against the real Server/AsyncServer on real engine.io sockets and '
         'against a set-based room model; after every emit the per-transport '
         'queues must contain exactly the expected recipients once each, and '
@@ -19,7 +21,8 @@ RULE = ('Model-based stateful testing: Hypothesis-generated histories over '
         'skip_sid that removes an addressed member. Distinct on the op list.')
 ASSUMPTIONS = [
     'the personal room is modelled as a room entered at connect',
-    'operations on unknown clients are not generated (only unknown '
+    'operations on clients that never existed are not generated (only '
+    'departed clients, unknown '
     'namespaces / rooms); exceptions are tolerated only for a namespace the '
     'client is not connected to and must leave the state unchanged',
     'engine.io Socket queues are the observation point',
@@ -54,6 +57,13 @@ def strategy(tier):
         st.fixed_dictionaries({'op': st.just('cdisc'), 'c': ci}),
         st.fixed_dictionaries({'op': st.just('sdisc'), 'c': ci}),
         st.fixed_dictionaries({'op': st.just('lose'), 't': st.integers(0, 5)}),
+        # the application enters / leaves a room for a client that has
+        # already gone (a handler that was suspended meanwhile): it may be
+        # refused, it must not bring the client back
+        st.fixed_dictionaries({'op': st.just('late'), 'c': ci,
+                               'what': st.sampled_from(['enter', 'enter',
+                                                        'leave']),
+                               'room': _room_ref()}),
         st.fixed_dictionaries({
             'op': st.just('emit'), 'ns': ns,
             'to': st.one_of(
@@ -223,6 +233,18 @@ def _run(case, w):
                 if ci in m.members.get(c['ns'], {}).get(room, set()):
                     removed.add((c['ns'], repr(room)))
                 m.leave(ci, room)
+        elif k == 'late':
+            gone_ = [i for i, c_ in enumerate(w.clients) if not c_['alive']]
+            if not gone_:
+                continue
+            c = w.clients[gone_[op['c'] % len(gone_)]]
+            room = room_of(op['room'])
+            fn = sio.enter_room if op['what'] == 'enter' else sio.leave_room
+            try:
+                w.do(fn(c['sid'], room, namespace=c['ns']))
+            except (KeyError, ValueError):
+                pass
+            labels['late_room_call_on_gone_client'] = True
         elif k == 'close_room':
             ns = ns_of(op['ns'])
             room = room_of(op['room'])
